@@ -35,6 +35,9 @@ func genWriteOp(rng *rand.Rand, nctx int, allowCtx bool) Op {
 		}
 		return Op{Kind: "wv", Bufs: bs}
 	case k < 7:
+		if rng.Intn(3) == 0 {
+			return Op{Kind: "sw", Bufs: [][]byte{payload(rng, sz)}}
+		}
 		return Op{Kind: "ww", Bufs: [][]byte{payload(rng, sz)}}
 	case k < 9 && allowCtx:
 		ctx := "live"
@@ -126,7 +129,7 @@ func genScenario(prop string, rng *rand.Rand) *Scenario {
 		if (prop == "C06" || prop == "C05" || prop == "C11") && rng.Intn(4) == 0 {
 			th.Ops = append(th.Ops, Op{Kind: "px"}) // the parent (bootstrap) context is cancelled first
 		}
-		th.Ops = append(th.Ops, Op{Kind: "cl", Err: []string{"e1", "e2", "nil", "to"}[rng.Intn(4)]})
+		th.Ops = append(th.Ops, Op{Kind: "cl", Err: []string{"e1", "e2", "nil", "to", "eof"}[rng.Intn(5)]})
 		if prop == "C11" || rng.Intn(3) == 0 {
 			th.Ops = append(th.Ops, genWriteOp(rng, sc.NCtx, true))
 		}
